@@ -76,6 +76,20 @@ def write_forms():
               "h1(w)", "h0(w)", "h0(kw)"))
     F.append(("ref-param-chain", "int h1(int &r) { r++; return k; }\nint h2(int &r) { return h1(r); }\nint h0(const int &r) { return r; }\n",
               "h2(v)", "h0(v)", "h0(k)"))
+    # product of target shapes x write operators inside a function that also has locals: the function's may-write set must
+    # contain the non-local alternative of every conditional / indexed / selected target; twin: the same operator on a local
+    shapes = [("global", "v"), ("array-const-index", "w[0]"), ("array-local-index", "w[loc]"), ("field", "st.f"),
+              ("cond-global-global", "(k > 0 ? v : other)"), ("cond-local-global", "(k > 0 ? loc : v)"),
+              ("cond-global-local", "(k > 0 ? v : loc)"), ("cond-localarr-globalarr", "(k > 0 ? la[0] : w[1])"),
+              ("cond-nested-else", "(k > 0 ? loc : (k > 1 ? loc : v))"), ("cond-nested-then", "(k > 0 ? (k > 1 ? loc : v) : loc)"),
+              ("cond-param-global", "(k > 0 ? par : v)"), ("cond-field", "(k > 0 ? lst : st).f"),
+              ("cond-array-base", "(k > 0 ? la : w)[0]")]
+    wops = [("=", "%s = 1;"), ("+=", "%s += 1;"), ("post++", "%s++;"), ("pre--", "--%s;")]
+    for sid, target in shapes:
+        for oid, stmt in wops:
+            body = "int loc = 0; int la[2]; struct { int f; int g; } lst; " + (stmt % target) + " return k;"
+            twin = "int loc = 0; int la[2]; struct { int f; int g; } lst; " + (stmt % "loc") + " return k + loc;"
+            F.append(("target-%s-%s" % (sid, oid), "int fo(int par) { %s }\nint fl(int par) { %s }\n" % (body, twin), "fo(1)", "fl(1)", "fl(1)"))
     # negative controls: writes that stay local to the function are fine
     return F
 
@@ -123,6 +137,16 @@ def run_shard(cid):
     part = engine.Part()
     w = engine.worker("fast")
     forms = write_forms() + [LOCAL_ONLY]
+    # a write form is a cell only if the library accepts it where writes are allowed (as an update)
+    cal = X.run_docs(w, [X.nta(GDECL + decl, [T(assign="other = %s" % we)], SYS) for fid, decl, we, re_, rk in forms if we is not None],
+                     want=["noinv"], batch=50)
+    valid = {}
+    for (fid, decl, we, re_, rk), r in zip([f for f in forms if f[2] is not None], cal):
+        valid[fid] = (not r.get("died")) and X.accepted(r)
+    for fid, ok in valid.items():
+        if not ok:
+            part.add("forms_not_valid_as_update", [fid])
+    forms = [f for f in forms if f[2] is None or valid.get(f[0])]
     docs, meta = [], []
     if cid in CONTEXTS:
         mk, ct = CONTEXTS[cid]
